@@ -174,6 +174,18 @@ func c18Judge(res []*Result, outf string, faulty bool, badFmt bool) (clause, why
 	} else if libErr && cli.Exit == 0 {
 		return "exit", "exit status 0 although the library call returned an error: " + e.Err
 	}
+	if len(lib.Trace.Events) > 1 {
+		// success or failure must agree between the two APIs too. Only when the directory scan itself reported errors
+		// does the directory API know something the ResourceInfos API was never told (its caller holds the scan errors).
+		e2 := &lib.Trace.Events[1]
+		scanErrs := false
+		for _, x := range e2.Errors {
+			scanErrs = scanErrs || x.Location == "scan"
+		}
+		if e2.Panic == nil && !scanErrs && e2.OK != e.OK {
+			return "infos", fmt.Sprintf("ResourceInfos API %s while the directory API %s (%s%s)", okStr(e2.OK), okStr(e.OK), e.Err, e2.Err)
+		}
+	}
 	if libErr {
 		if cli.Stdout != "" && !strings.HasPrefix(cli.Stdout, "Usage:") {
 			// nothing but usage text may reach stdout when the command fails
@@ -201,8 +213,8 @@ func c18Judge(res []*Result, outf string, faulty bool, badFmt bool) (clause, why
 	if len(lib.Trace.Events) > 1 {
 		e2 := &lib.Trace.Events[1]
 		if e2.Panic == nil {
-			if e2.OK != e.OK {
-				return "infos", fmt.Sprintf("ResourceInfos API %s while the directory API %s", okStr(e2.OK), okStr(e.OK))
+			if !e2.OK {
+				return "infos", fmt.Sprintf("ResourceInfos API %s while the directory API %s (%s)", okStr(e2.OK), okStr(e.OK), e2.Err)
 			}
 			if !sameStrings(e2.Conns, e.Conns) {
 				return "infos", "ResourceInfos API and directory API return different connections: " + diffStrings(e.Conns, e2.Conns)
